@@ -55,8 +55,53 @@ impl DependentRule for SerializableRule {
 
 impl<L: Language> DependentRule for (L, SerializableRuleCore) {
   fn visit_dependency<'a>(&'a self, sorter: &mut TopologicalSort<'a, Self>) -> OrderResult<()> {
-    visit_dependent_rule_ids(&self.1.rule, sorter)
+    let mut visiting = vec![];
+    visit_global_rule_ids(&self.1.rule, self.1.utils.as_ref(), &mut visiting, sorter)
   }
+}
+
+/// The dependencies of a global utility rule: like `visit_dependent_rule_ids`, but a `matches`
+/// that names one of the rule's OWN local utilities is followed into that utility's body, where
+/// another global rule (or this very rule) may be required on the same node.
+fn visit_global_rule_ids<'a, T: DependentRule>(
+  rule: &'a SerializableRule,
+  locals: Option<&'a HashMap<String, SerializableRule>>,
+  visiting: &mut Vec<&'a str>,
+  sort: &mut TopologicalSort<'a, T>,
+) -> OrderResult<()> {
+  if let Maybe::Present(matches) = &rule.matches {
+    match locals.and_then(|l| l.get_key_value(matches)) {
+      // a cycle among the local utilities themselves is reported when they are registered
+      Some((id, _)) if visiting.contains(&id.as_str()) => {}
+      Some((id, local)) => {
+        visiting.push(id);
+        visit_global_rule_ids(local, locals, visiting, sort)?;
+        visiting.pop();
+      }
+      None => sort.visit(matches)?,
+    }
+  }
+  if let Maybe::Present(all) = &rule.all {
+    for sub in all {
+      visit_global_rule_ids(sub, locals, visiting, sort)?;
+    }
+  }
+  if let Maybe::Present(any) = &rule.any {
+    for sub in any {
+      visit_global_rule_ids(sub, locals, visiting, sort)?;
+    }
+  }
+  if let Maybe::Present(not) = &rule.not {
+    visit_global_rule_ids(not, locals, visiting, sort)?;
+  }
+  if let Maybe::Present(SerializableNthChild::Complex {
+    of_rule: Some(of_rule),
+    ..
+  }) = &rule.nth_child
+  {
+    visit_global_rule_ids(of_rule, locals, visiting, sort)?;
+  }
+  Ok(())
 }
 
 impl DependentRule for Transformation {
